@@ -191,3 +191,32 @@ Fixpoint ucls_of_table (t : list (N * N)) (c : N) : N :=
   | [] => 0%N
   | (k, v) :: t' => if N.eqb k c then v else ucls_of_table t' c
   end.
+
+(* ---- literal patterns, in the shape the translator emits them *)
+(* `abc` followed by r:  RSeq a (RSeq b (RSeq c r))   (e.g. the keyword pattern `abc\b` with r = RWordB false) *)
+Fixpoint rx_lit_then (l : list N) (r : rx) : rx :=
+  match l with
+  | [] => r
+  | c :: l' => RSeq (RChr c) (rx_lit_then l' r)
+  end.
+
+(* `abc` alone:  RSeq a (RSeq b c) *)
+Fixpoint rx_lit (l : list N) : rx :=
+  match l with
+  | [] => REps
+  | [c] => RChr c
+  | c :: l' => RSeq (RChr c) (rx_lit l')
+  end.
+
+Definition rx_kw (l : list N) : rx := rx_lit_then l (RWordB false).
+
+(* the input starts with the literal (case-blind for ASCII letters under IGNORECASE) *)
+Fixpoint lit_pre (E : rxenv) (l s : list N) : bool :=
+  match l, s with
+  | [], _ => true
+  | x :: l', c :: s' => (chr_eq E c x && lit_pre E l' s')%bool
+  | _ :: _, [] => false
+  end.
+
+Definition next_is_word (E : rxenv) (s : list N) : bool :=
+  match s with c :: _ => is_word E c | [] => false end.
